@@ -265,6 +265,44 @@ func c14ServerLevel(run *ev.Run) int64 {
 			sw.Close()
 		}
 	}
+	// two chains of one application (one client registration, one callback) that differ in access-token forwarding:
+	// whichever is used first, an OK of the chain without forwarding adds the ID token header and nothing else
+	for _, firstFwd := range []bool{true, false} {
+		a := world.FilterSpec{Name: "api", Realm: "idp-a.test", ClientID: "client-a", Secret: "SEKRET-of-filter-a", Forward: true, Logout: true, Callback: "https://app.test/cb"}
+		b := world.FilterSpec{Name: "web", Realm: "idp-a.test", ClientID: "client-a", Secret: "SEKRET-of-filter-a", Forward: false, Logout: true, Callback: "https://app.test/cb"}
+		sw, err := world.NewSWorld([]world.FilterSpec{a, b}, nil)
+		if err != nil {
+			run.HarnessError("C14 server-level pair: " + err.Error())
+			return n
+		}
+		first, second := a, b
+		if !firstFwd {
+			first, second = b, a
+		}
+		sw.Do(world.SReq{Tenant: first.Name, Path: "/" + first.Name + "/app"})
+		for _, f := range []world.FilterSpec{second, first} {
+			sid, name, err := sw.Login(f)
+			if err != nil {
+				run.HarnessError("C14 server-level pair login at " + f.Name + ": " + err.Error())
+				break
+			}
+			r := sw.Do(world.SReq{Tenant: f.Name, Path: "/" + f.Name + "/app", Cookies: map[string]string{name: sid}})
+			n++
+			run.Class(fmt.Sprintf("server-pair|first=%s|probe=%s|ok=%v|headers=%d", first.Name, f.Name, r.OK, len(r.Headers)))
+			if !r.OK {
+				continue
+			}
+			for _, hv := range r.Headers {
+				allowed := strings.EqualFold(hv[0], "authorization") || (f.Forward && strings.EqualFold(hv[0], "x-access-token"))
+				if !allowed {
+					run.Violation("C14 ok-adds-unexpected-header name="+strings.ToLower(hv[0])+" server-pair",
+						fmt.Sprintf("chains api (forwards the access token) and web (does not), %s used first: an OK of chain %s adds header %s", first.Name, f.Name, hv[0]),
+						map[string]any{"level": "server-pair", "first": first.Name, "probe": f.Name})
+				}
+			}
+		}
+		sw.Close()
+	}
 	return n
 }
 
